@@ -725,4 +725,247 @@ Qed.
 
 End Answer.
 
+(* ================================================================ Part D: the cache *)
+Notation ev_apply := (DynDefs.ev_apply L leqb).
+Notation pending := (DynDefs.pending L).
+Notation trailing := (DynDefs.trailing L).
+
+(* what a cached computation event must say about the framework it is served for *)
+Definition cache_ok (sm : sem) (af : fw) (ev : devent L) : Prop :=
+  match ev with
+  | DCred _ acc refused (Some X) =>
+      refused = [] /\ ext_ok sm af X /\
+      forall l id, lmem L leqb l acc = true -> get_argument af l = Some id -> In id X
+  | DSkep _ acc refused (Some X) =>
+      acc = [] /\ ext_ok sm af X /\
+      forall l id, lmem L leqb l refused = true -> get_argument af l = Some id -> ~ In id X
+  | _ => True
+  end.
+Definition cache_J (sm : sem) (s : dsolver L) : Prop :=
+  (forall ev, In ev (trailing (s_buf L s)) -> cache_ok sm (s_af L s) ev) /\
+  (trailing (s_buf L s) <> [] -> forall ev, In ev (pending (s_buf L s)) -> is_update_ev L ev = false).
+
+Lemma cred_scan_hit (rb : list (devent L)) l b X :
+  cred_scan L leqb rb l = (Some b, Some X) ->
+  b = true /\ exists ev, In ev (trailing_rev L rb) /\
+    exists acc refused, (ev = DCred L acc refused (Some X) \/ ev = DSkep L acc refused (Some X)) /\
+                        lmem L leqb l acc = true.
+Proof.
+  induction rb as [|ev r IH]; cbn [cred_scan]; [discriminate|].
+  destruct ev as [x|x|x y|x y|acc refused e|acc refused e]; try discriminate; cbn [trailing_rev is_update_ev].
+  - destruct e as [e|].
+    + destruct (lmem L leqb l acc) eqn:Em.
+      * intros H. injection H as <- <-. split; [reflexivity|].
+        exists (DCred L acc refused (Some e)). split; [left; reflexivity|]. exists acc, refused. auto.
+      * destruct (lmem L leqb l refused); [discriminate|].
+        intros H. destruct (IH H) as (Hb & ev & Hin & Hev). split; [exact Hb|]. exists ev. split; [right; exact Hin|exact Hev].
+    + destruct (lmem L leqb l refused); [discriminate|].
+      intros H. destruct (IH H) as (Hb & ev & Hin & Hev). split; [exact Hb|]. exists ev. split; [right; exact Hin|exact Hev].
+  - destruct e as [e|].
+    + destruct (lmem L leqb l acc) eqn:Em.
+      * intros H. injection H as <- <-. split; [reflexivity|].
+        exists (DSkep L acc refused (Some e)). split; [left; reflexivity|]. exists acc, refused. auto.
+      * intros H. destruct (IH H) as (Hb & ev & Hin & Hev). split; [exact Hb|]. exists ev. split; [right; exact Hin|exact Hev].
+    + intros H. destruct (IH H) as (Hb & ev & Hin & Hev). split; [exact Hb|]. exists ev. split; [right; exact Hin|exact Hev].
+Qed.
+
+(* a query that computed pushes its event behind an untouched buffer *)
+Lemma cache_push sm (s : dsolver L) af buf ev :
+  cache_J sm s ->
+  af = fold_left ev_apply (pending (s_buf L s)) (s_af L s) ->
+  b_buffer L buf = b_buffer L (s_buf L s) -> b_next L buf = length (b_buffer L (s_buf L s)) ->
+  is_update_ev L ev = false -> cache_ok sm af ev ->
+  cache_J sm {| s_kind := s_kind L s; s_af := af; s_buf := buf_push L buf ev |}.
+Proof.
+  intros [IH1 IH2] Haf H2 H3 Hev Hok.
+  unfold cache_J, DynDefs.trailing, DynDefs.pending, buf_push, buf_with. cbn [s_buf s_af b_buffer b_next].
+  rewrite H2, (trailing_snoc L), Hev. split.
+  - intros ev' [<-|Hin]; [exact Hok|].
+    assert (Hne : trailing (s_buf L s) <> []).
+    { unfold DynDefs.trailing. intros E. rewrite E in Hin. destruct Hin. }
+    rewrite Haf, (fold_no_update L leqb _ _ (IH2 Hne)). apply IH1. exact Hin.
+  - intros _ ev'. rewrite H3, skipn_app, skipn_all, Nat.sub_diag. cbn [skipn app].
+    intros [<-|[]]. exact Hev.
+Qed.
+
+(* a cache hit is served for the current framework *)
+Lemma cache_hit_framework sm (s : dsolver L) ev :
+  cache_J sm s -> In ev (trailing (s_buf L s)) ->
+  cache_ok sm (s_af L s) ev /\ fold_left ev_apply (pending (s_buf L s)) (s_af L s) = s_af L s.
+Proof.
+  intros [IH1 IH2] Hin. split; [apply IH1; exact Hin|].
+  apply (fold_no_update L leqb). apply IH2. intros E. rewrite E in Hin. destruct Hin.
+Qed.
+
+(* ================================================================ Part E: one query *)
+Lemma opt_m_Done {A} (o : option A) s a s' : opt_m o s = Done a s' -> o = Some a /\ s' = s.
+Proof. destruct o; cbn [opt_m]; unfold ret, panic; intros H; [injection H as -> ->; auto|discriminate]. Qed.
+Lemma ret_Done {A} (x : A) s a s' : ret x s = Done a s' -> a = x /\ s' = s.
+Proof. unfold ret. intros H. injection H as -> ->. auto. Qed.
+Lemma solve_Done oracle a s r s' : Prog.solve oracle a s = Done r s' ->
+  s' = st_solved oracle s a /\
+  ((exists m, r = Some m /\ oracle (calls s) (cls s) a = Sat m) \/ (r = None /\ oracle (calls s) (cls s) a = Unsat)).
+Proof.
+  unfold Prog.solve, st_solved, answer_of, cls, sess_solved.
+  destruct (oracle (calls s) (rev (rclauses (sess s))) a) as [m| |] eqn:E; intros H; try discriminate H.
+  - injection H as <- <-. split; [reflexivity|]. left. exists m. auto.
+  - injection H as <- <-. split; [reflexivity|]. right. auto.
+Qed.
+
+Lemma acc_spec_strip sm pol (cert : bool) F al (r : bool * option (list nat)) :
+  acc_spec sm pol true F al r -> acc_spec sm pol cert F al (if cert then r else (fst r, None)).
+Proof.
+  destruct cert; [auto|]. intros [H1 _]. split; [exact H1|]. cbn [snd]. discriminate.
+Qed.
+
+Section Query.
+Variable oracle : nat -> cnf -> list lit -> answer.
+Hypothesis Hvalid : valid_oracle oracle.
+Variable k : dkind.
+Hypothesis Hk : att_kind k.
+Variable s : dsolver L.
+Variable ps : Prog.st.
+Variable spec : fw.
+Variable l : L.
+Variable id : nat.
+Notation sm := (sem_of (kind_sem k)).
+Hypothesis Hinv : Inv (s_af L s).
+Hypothesis Hi : att_inv L leqb k (s_af L s) (s_buf L s).
+Hypothesis Hcj : forall e, b_enc L (s_buf L s) = XAtt e -> clause_pre e ps.
+Hypothesis Hcache : cache_J sm s.
+Hypothesis Hsy : fold_left ev_apply (pending (s_buf L s)) (s_af L s) = spec.
+Hypothesis Hl : get_argument spec l = Some id.
+
+(* what a query leaves behind for the next one *)
+Definition qpost (s' : dsolver L) (ps' : Prog.st) : Prop :=
+  (forall e, b_enc L (s_buf L s') = XAtt e -> clause_pre e ps') /\ cache_J sm s'.
+
+Lemma ue_facts af buf ps1 :
+  update_encoding L leqb (s_af L s) (s_buf L s) ps = Done (af, buf) ps1 ->
+  af = spec /\ b_buffer L buf = b_buffer L (s_buf L s) /\ b_next L buf = length (b_buffer L (s_buf L s)) /\
+  Inv af /\ exists e', b_enc L buf = XAtt e' /\ a_sem e' = kind_sem k /\ att_tables_ok af e' /\ clause_inv e' ps1.
+Proof.
+  intros Hue.
+  destruct (update_encoding_spec L leqb _ _ _ _ _ Hue) as (H1 & H2 & H3 & _). cbn [fst snd] in *.
+  destruct (update_encoding_att L leqb leqb_spec k _ _ Hinv Hi _ _ _ Hue) as [Hinv' (e' & He' & (P1 & _) & Ht')].
+  cbn [fst snd] in *.
+  pose proof (wpT_done _ _ _ _ _ (update_encoding_clauses k _ _ ps Hinv Hi Hcj) Hue) as (e'' & He'' & Hcl).
+  cbn [snd] in He''. assert (e'' = e') by congruence. subst e''.
+  split; [rewrite H1; exact Hsy|]. split; [exact H2|]. split; [exact H3|]. split; [exact Hinv'|].
+  exists e'. auto.
+Qed.
+
+Lemma qpost_push af buf ps1 e' ev a :
+  af = spec -> b_buffer L buf = b_buffer L (s_buf L s) -> b_next L buf = length (b_buffer L (s_buf L s)) ->
+  b_enc L buf = XAtt e' -> clause_inv e' ps1 ->
+  is_update_ev L ev = false -> cache_ok sm af ev ->
+  qpost {| s_kind := s_kind L s; s_af := af; s_buf := buf_push L buf ev |} (st_solved oracle ps1 a).
+Proof.
+  intros Haf H2 H3 He' (D & Hc & Hd) Hev Hok. split.
+  - cbn [s_buf buf_push buf_with b_enc]. intros e0 E. assert (e0 = e') by congruence. subst e0.
+    right. exists D. rewrite cls_solved. auto.
+  - apply cache_push; auto. rewrite Haf, Hsy. reflexivity.
+Qed.
+
+(* ---- credulous acceptance (both kinds) *)
+Definition dc_miss : Prog.M (dsolver L * answer_t) :=
+  r <- update_encoding L leqb (s_af L s) (s_buf L s) ;;
+  let '(af, buf) := r in
+  let x := b_enc L buf in
+  asm <- x_assumptions L af x ;;
+  v <- x_arg_var L leqb af x l ;;
+  m <- Prog.solve oracle (asm ++ [zlit v]) ;;
+  match m with
+  | Some m =>
+      acc <- opt_m (labels_of L af (args_where not_some_false (x_vars x) m)) ;;
+      let ext := dyn_a2e (x_vars x) m in
+      ret ({| s_kind := s_kind L s; s_af := af; s_buf := buf_push L buf (DCred L acc [] (Some ext)) |},
+           (true, Some ext))
+  | None =>
+      ret ({| s_kind := s_kind L s; s_af := af; s_buf := buf_push L buf (DCred L [] [l] None) |}, (false, None))
+  end.
+
+Lemma dc_miss_correct s' a ps' :
+  dc_miss ps = Done (s', a) ps' -> acc_spec sm true true (af_of L spec) [id] a /\ qpost s' ps'.
+Proof.
+  intros Hq. unfold dc_miss in Hq. apply bind_Done in Hq. destruct Hq as ([af buf] & ps1 & Hue & Hq).
+  destruct (ue_facts af buf ps1 Hue) as (Haf & Hb2 & Hb3 & Hinv' & e' & He' & Hsem & Ht' & Hcl').
+  cbv zeta in Hq. rewrite He' in Hq. cbn [x_assumptions x_vars] in Hq.
+  apply bind_Done in Hq. destruct Hq as (asm & ps1' & Hasm & Hq). apply opt_m_Done in Hasm. destruct Hasm as [Hasm ->].
+  destruct (att_assumptions_some L af e' Hinv' Ht') as (idx & Hidx & _ & Hasm'). assert (Ea : asm = att_asm (a_n e') idx) by (unfold att_asm; congruence). subst asm. clear Hasm.
+  apply bind_Done in Hq. destruct Hq as (v & ps1'' & Hv & Hq).
+  unfold x_arg_var in Hv. apply bind_Done in Hv. destruct Hv as (id' & p' & Hg' & Hv).
+  apply opt_m_Done in Hg'. destruct Hg' as [Hg' ->]. apply opt_m_Done in Hv. destruct Hv as [Hv ->]. cbn [x_a2v] in Hv.
+  assert (id' = id) by (rewrite Haf, Hl in Hg'; congruence). subst id'.
+  apply bind_Done in Hq. destruct Hq as (mo & ps2 & Hsolve & Hq). apply solve_Done in Hsolve.
+  destruct Hsolve as [-> [(m & -> & Ho)|[-> Ho]]].
+  - apply bind_Done in Hq. destruct Hq as (acc & p3 & Hacc & Hq). apply opt_m_Done in Hacc. destruct Hacc as [Hacc ->].
+    apply ret_Done in Hq. destruct Hq as [Hq ->]. injection Hq as -> ->.
+    destruct (dc_sat_facts af e' Hinv' Ht' ps1 Hcl' idx Hidx oracle Hvalid id v Hv m Ho) as (Hext & Hin & Hacc').
+    rewrite Hsem in Hext. split.
+    + rewrite <- Haf. destruct Hext as (E1 & E2 & E3). split; cbn [fst snd].
+      * split; [intros _|reflexivity]. exists (dyn_a2e (a_vars e') m). split; [exact E1|]. exists id. split; [left; reflexivity|exact Hin].
+      * repeat split; auto. exists id. split; [left; reflexivity|exact Hin].
+    + apply (qpost_push af buf ps1 e'); auto. cbn [cache_ok]. split; [reflexivity|]. split; [exact Hext|]. exact (Hacc' acc Hacc).
+  - apply ret_Done in Hq. destruct Hq as [Hq ->]. injection Hq as -> ->.
+    pose proof (dc_unsat_facts af e' Hinv' Ht' ps1 Hcl' idx Hidx oracle Hvalid id v Hv Ho) as Hnc.
+    rewrite Hsem, Haf in Hnc. split.
+    + split; cbn [fst snd]; [split; [discriminate|intros H; exfalso; exact (Hnc H)]|reflexivity].
+    + apply (qpost_push af buf ps1 e'); auto. exact I.
+Qed.
+
+(* ---- skeptical acceptance (stable) *)
+Definition ds_miss : Prog.M (dsolver L * answer_t) :=
+  r <- update_encoding L leqb (s_af L s) (s_buf L s) ;;
+  let '(af, buf) := r in
+  let x := b_enc L buf in
+  asm <- x_assumptions L af x ;;
+  v <- x_arg_var L leqb af x l ;;
+  m <- Prog.solve oracle (asm ++ [znlit v]) ;;
+  match m with
+  | Some m =>
+      refused <- opt_m (labels_of L af (args_where not_some_true (x_vars x) m)) ;;
+      let ext := dyn_a2e (x_vars x) m in
+      ret ({| s_kind := s_kind L s; s_af := af; s_buf := buf_push L buf (DSkep L [] refused (Some ext)) |},
+           (false, Some ext))
+  | None =>
+      id <- opt_m (get_argument af l) ;;
+      refused <- opt_m (labels_of L af (map snd (iter_attacks_from L af id))) ;;
+      ret ({| s_kind := s_kind L s; s_af := af; s_buf := buf_push L buf (DSkep L [l] refused None) |}, (true, None))
+  end.
+
+Lemma ds_miss_correct s' a ps' :
+  ds_miss ps = Done (s', a) ps' -> acc_spec sm false true (af_of L spec) [id] a /\ qpost s' ps'.
+Proof.
+  intros Hq. unfold ds_miss in Hq. apply bind_Done in Hq. destruct Hq as ([af buf] & ps1 & Hue & Hq).
+  destruct (ue_facts af buf ps1 Hue) as (Haf & Hb2 & Hb3 & Hinv' & e' & He' & Hsem & Ht' & Hcl').
+  cbv zeta in Hq. rewrite He' in Hq. cbn [x_assumptions x_vars] in Hq.
+  apply bind_Done in Hq. destruct Hq as (asm & ps1' & Hasm & Hq). apply opt_m_Done in Hasm. destruct Hasm as [Hasm ->].
+  destruct (att_assumptions_some L af e' Hinv' Ht') as (idx & Hidx & _ & Hasm'). assert (Ea : asm = att_asm (a_n e') idx) by (unfold att_asm; congruence). subst asm. clear Hasm.
+  apply bind_Done in Hq. destruct Hq as (v & ps1'' & Hv & Hq).
+  unfold x_arg_var in Hv. apply bind_Done in Hv. destruct Hv as (id' & p' & Hg' & Hv).
+  apply opt_m_Done in Hg'. destruct Hg' as [Hg' ->]. apply opt_m_Done in Hv. destruct Hv as [Hv ->]. cbn [x_a2v] in Hv.
+  assert (id' = id) by (rewrite Haf, Hl in Hg'; congruence). subst id'.
+  apply bind_Done in Hq. destruct Hq as (mo & ps2 & Hsolve & Hq). apply solve_Done in Hsolve.
+  destruct Hsolve as [-> [(m & -> & Ho)|[-> Ho]]].
+  - apply bind_Done in Hq. destruct Hq as (refused & p3 & Href & Hq). apply opt_m_Done in Href. destruct Href as [Href ->].
+    apply ret_Done in Hq. destruct Hq as [Hq ->]. injection Hq as -> ->.
+    destruct (ds_sat_facts af e' Hinv' Ht' ps1 Hcl' idx Hidx oracle Hvalid id v Hv m Ho) as (Hext & Hnin & Href').
+    rewrite Hsem in Hext. split.
+    + rewrite <- Haf. destruct Hext as (E1 & E2 & E3). split; cbn [fst snd].
+      * split; [discriminate|]. intros Hsk. exfalso. destruct (Hsk _ E1) as (a0 & [<-|[]] & Ha0). exact (Hnin Ha0).
+      * repeat split; auto. intros a0 [<-|[]]. exact Hnin.
+    + apply (qpost_push af buf ps1 e'); auto. cbn [cache_ok]. split; [reflexivity|]. split; [exact Hext|]. exact (Href' refused Href).
+  - apply bind_Done in Hq. destruct Hq as (id2 & p3 & Hid2 & Hq). apply opt_m_Done in Hid2. destruct Hid2 as [_ ->].
+    apply bind_Done in Hq. destruct Hq as (refused & p4 & Href & Hq). apply opt_m_Done in Href. destruct Href as [_ ->].
+    apply ret_Done in Hq. destruct Hq as [Hq ->]. injection Hq as -> ->.
+    pose proof (ds_unsat_facts af e' Hinv' Ht' ps1 Hcl' idx Hidx oracle Hvalid id v Hv Ho) as Hsk.
+    rewrite Hsem, Haf in Hsk.
+    split.
+    + split; cbn [fst snd]; [split; [intros _; exact Hsk|reflexivity]|reflexivity].
+    + apply (qpost_push af buf ps1 e'); auto. exact I.
+Qed.
+
+End Query.
+
 End Fun.
